@@ -94,12 +94,30 @@ def family_undo():
         out.append((4, cons, [(ROOT, 0, 1), (A, 1, 1), (A, 2, 1), (POP, 0, 0), (A, 3, 1)]))
         out.append((4, cons, [(A, 0, 1), (A, 1, 1), (A, 2, 1), (POP, 0, 0), (A, 3, 1), (POP, 0, 0)]))
         out.append((4, cons, [(A, 1, 1), (A, 0, 1), (A, 2, 1), (POP, 0, 0), (A, 3, 1)]))
+    # a stale predecessor can close a CYCLE in the explanation walk: x -> v and w -> v at root; level 1 asserts x -> w (predecessor of (x,v) becomes w)
+    # and is retracted; then v -> w is asserted, (x,w) gets predecessor v, and the redundant constraint on (x,w) must be explained by walking w -> v -> x
+    cons = [(1, 2, 3), (3, 2, 1), (1, 3, 1), (2, 3, 1), (1, 3, 5)]
+    out.append((3, cons, [(ROOT, 0, 1), (ROOT, 1, 1), (A, 2, 1), (POP, 0, 0), (A, 3, 1)]))
+    out.append((3, cons, [(ROOT, 1, 1), (A, 0, 1), (A, 2, 1), (POP, 0, 0), (A, 3, 1), (POP, 0, 0)]))
     # one decision that implies (root clauses) two contradictory constraints and a third one: the conflict is found while implied literals still wait
     # in the propagation queue, the learnt clause is unit and the core backjumps to root; the waiting literals belong to the undone level
     cons = [(2, 3, 3), (1, 2, 1), (2, 1, -3), (1, 3, 2)]
     out.append((3, cons, [cl(0, 0, 1, 1), cl(0, 0, 2, 1), cl(0, 0, 3, 1), (A, 0, 1), (A, 2, 1), (POP, 0, 0)]))
     out.append((3, cons, [cl(0, 0, 2, 1), cl(0, 0, 1, 1), cl(0, 0, 3, 1), (A, 0, 1), (A, 1, 1), (A, 3, 1), (POP, 0, 0)]))
     out.append((3, cons, [cl(0, 0, 1, 1), cl(0, 0, 2, 1), (A, 3, 1), (A, 0, 1), (A, 2, 1), (POP, 0, 0)]))
+    return out
+
+
+def family_chain_orders():
+    """a three-edge chain t1 -> t2 -> t3 -> t4 asserted above root level in EVERY order, with an undecided redundant constraint and an undecided
+    inconsistent constraint on (t1,t4): whichever edge comes last, the incremental update has to compose the predecessors of both sub-paths, and
+    the explanations of the two decided constraints must name all three edges; then everything is retracted and one edge re-asserted (a reason
+    that named too few edges would now propagate something that is not implied)"""
+    out = []
+    cons = [(1, 2, 1), (2, 3, 1), (3, 4, 1), (1, 4, 5), (4, 1, -4)]
+    for order in itertools.permutations((0, 1, 2)):
+        h = [(A, e, 1) for e in order] + [(POP, 0, 0), (POP, 0, 0), (POP, 0, 0), (A, order[2], 1)]
+        out.append((4, cons, h))
     return out
 
 
@@ -131,7 +149,7 @@ def fmt(T, cons, hist):
 def jobs(tier):
     seed = int(os.environ.get('VERIF_SEED', '0') or 0)
     rng = random.Random(4321 + seed)
-    scs = list(CURATED) + boundary_family() + family_undo()
+    scs = list(CURATED) + boundary_family() + family_undo() + family_chain_orders()
     if tier == 'quick':
         scs += sample(rng, 20, 3, 5, 5) + sample(rng, 6, 2, 4, 6)
         k = 5
